@@ -7,3 +7,12 @@ pub assume_specification<T, A> [<std::rc::Rc<T, A> as std::borrow::Borrow<T>>::b
 pub fn verif_rc_string_eq(a: &std::rc::Rc<String>, b: &std::rc::Rc<String>) -> (r: bool)
     ensures r == (*a == *b)
 { a == b }
+// TRUSTED: the clone of an Rc is that Rc (vstd's own spec of Rc::clone, restated for the `cloned` relation Vec::clone speaks in)
+pub broadcast axiom fn axiom_rc_cloned<T>(a: std::rc::Rc<T>, b: std::rc::Rc<T>) requires #[trigger] cloned::<std::rc::Rc<T>>(a, b) ensures a == b;
+pub proof fn lemma_rcvec_clone<T>(v: Seq<std::rc::Rc<T>>, r: Seq<std::rc::Rc<T>>)
+    requires v.len() == r.len(), forall|i: int| 0 <= i < v.len() ==> cloned::<std::rc::Rc<T>>(#[trigger] v[i], r[i])
+    ensures r == v
+{
+    broadcast use axiom_rc_cloned;
+    assert(r =~= v);
+}
